@@ -270,8 +270,8 @@ def judge(prog, res):
     kinds = "+".join(sorted({k for k, _ in m["stmts"]}))
     if v in ("abort", "exception", "bad-json", "missing"):
         return ("C18:valid-program:%s:%s" % (v, kinds), "%s: %s" % (v, res.get("what", "")[:600]))
-    if v == "timeout":
-        return None  # undecided within the budget: not a verdict
+    if v == "timeout":  # undecided for C01/C02; a tiny program that gets no answer is a hang for C18
+        return ("C18:valid-program:no-answer-within-limit:" + kinds, res.get("what", ""))
     if v == "reader-error":
         return ("C16:valid-program-rejected:" + kinds, "the reader rejected the program: " + res.get("what", ""))
     if v in ("unsolvable", "inconsistent"):
